@@ -673,7 +673,7 @@ func ruleRelAppendOnly(r *Run) {
 				fmt.Sprintf("%s changes a relationship list by %s; relationships of an existing document may only be appended (removing or rewriting one leaves the references that use its id dangling and loses relationships of an opened package)", shortName(top), shape))
 		})
 	}
-	r.Min("relationship_list_stores", n, 10)
+	r.Min("relationship_list_stores", n, 4)
 }
 
 // isDocConstructor: functions that create the Document they fill (New, openFromZipReader, …).
@@ -2129,7 +2129,7 @@ func ruleCounterMonotonic(owners ...string) func(r *Run) {
 					fmt.Sprintf("%s assigns the id counter %s.%s %s", shortName(top), o.Obj().Name(), fv.Name(), map[bool]string{true: "its own value plus a positive constant", false: "a value that is not counter+constant (" + symOfExpr(st.Val) + "): the counter can move backwards, an id still in use is handed out again and the new entry replaces the live one"}[inc]))
 			})
 		}
-		r.Min("id_counter_updates", n, 2)
+		r.Min("id_counter_updates", n, 1)
 	}
 }
 
@@ -2287,6 +2287,26 @@ func ruleSizePrecedence(r *Run) {
 		}
 		iff, ok := b.Instrs[len(b.Instrs)-1].(*ssa.If)
 		if !ok {
+			continue
+		}
+		// value form of `a && b` (used for tag-less switch cases): phi [blockOf(a): false, …: b]
+		if ph, ok := iff.Cond.(*ssa.Phi); ok && len(ph.Edges) == 2 {
+			fa, fb := "", ""
+			for i, e := range ph.Edges {
+				if c, ok := e.(*ssa.Const); ok && c.Value != nil && c.Value.String() == "false" {
+					pb := b.Preds[i]
+					if len(pb.Instrs) > 0 {
+						if pif, ok := pb.Instrs[len(pb.Instrs)-1].(*ssa.If); ok {
+							fa = cmpField(pif.Cond)
+						}
+					}
+				} else {
+					fb = cmpField(e)
+				}
+			}
+			if fa != "" && fb != "" && fa != fb {
+				explicit = append(explicit, b)
+			}
 			continue
 		}
 		f1 := cmpField(iff.Cond)
